@@ -86,6 +86,24 @@ pub struct Model<'a, A> {
     pub aux0: A,
 }
 
+/// Conformance of the step-by-step semantics (restore a snapshot, run one line, snapshot) with a
+/// continuous run: all lines of a tick-free path in ONE reader run from the initial state must give
+/// the state reached step by step. This is what binds the explorer's transitions to what a user
+/// runs, and it is where decoder-internal state that survives between lines (caches) shows up.
+pub fn whole_run_matches(cfg: &Cfg, init: &[Snap], actions: &[Action], path: &[usize], stepwise: &[Snap]) -> Option<(Outcome, Vec<Snap>)> {
+    let mut lines: Vec<Vec<u8>> = vec![];
+    for &ai in path {
+        match &actions.get(ai)?.act {
+            Act::Line(l) => lines.push(l.clone()),
+            _ => return None,
+        }
+    }
+    let t = restore(init);
+    let o = run_file(cfg, &join_lines(&lines), &t);
+    let got = snapshot(&t);
+    if o.is_ok() && got == stepwise { None } else { Some((o, got)) }
+}
+
 struct Node<A> {
     rows: Vec<Snap>,
     aux: A,
